@@ -402,7 +402,7 @@ def observe_run(C, reads1, reads2, workdir):
         res = res2
     ev = dict(argv=" ".join(argv), exit=res.exit)
     if res.exit != 0 or res.exception is not None or res.json is None:
-        ev["failed"] = dict(exit=res.exit, errors=res.errors[:3], exc=repr(res.exception))
+        ev["failed"] = dict(exit=res.exit, errors=res.errors[:3], exc=repr(res.exception), site=getattr(res, "crash_site", ""))
         return ev, sampler, res
     # The model's adapter lists are those of the command line (ranks, "the adapter given first", names by
     # position); the built objects only supply class and Locate oracle.  If the program built a different
